@@ -147,7 +147,8 @@ def make_exchange(cfg, dispatcher):
     bp, qp = cfg["bp"], cfg["qp"]
     for p in PAIRS[:cfg.get("pairs", 1)]:
         e.set_symbol_precision(p.base_symbol, bp)
-        e.set_pair_info(p, bs.PairInfo(bp, qp if p.quote_symbol == "USD" else bp))
+        if not cfg.get("no_pair_info"):  # otherwise the pair's precisions are derived from its symbols' precisions
+            e.set_pair_info(p, bs.PairInfo(bp, qp if p.quote_symbol == "USD" else bp))
     e.set_symbol_precision("USD", qp)
     if lend and lend.get("isym") and lend["isym"] not in ("USD", "BTC", "ETH", "same"):
         raise ValueError("interest symbol must be priced")
@@ -354,7 +355,7 @@ def alphabet(cfg, level="std"):
         return alphabet_cross(cfg)
     if level == "ar":
         return alphabet_ar(cfg)
-    shapes = {"small": (0, 1, 5), "std": (0, 1, 2, 3, 5, 6, 9), "full": tuple(range(len(SHAPES)))}[level]
+    shapes = {"small": (0, 1, 5), "std": (0, 1, 2, 3, 4, 5, 6, 9), "full": tuple(range(len(SHAPES)))}[level]
     A = [("bar", pi, si) for pi in range(npairs) for si in shapes]
     amts = {"small": (1, 3), "std": (1, 3), "full": (1, 2, 3)}[level]
     flags = [(False, False)]
@@ -405,6 +406,10 @@ def alphabet_lend(cfg):
           ("loan", "BTC", str(3 * u if cfg["bp"] == 0 else 30 * u)), ("repay", 0), ("repay", 1), ("cancel", 0),
           # amounts that are not multiples of the symbol precision (e.g. 1000 / price passed straight to create_loan)
           ("loan", "USD", "33.3333333333"), ("loan", "BTC", str((u / 3).quantize(D(1).scaleb(-(cfg["bp"] + 6)))))]
+    if npairs >= 2:
+        # the second pair may not have traded yet when its base symbol is borrowed (pairs with distinct timestamps)
+        A += [("loan", "ETH", str(u)), ("loan", "ETH", str(5 * u)),
+              ("ord", "mkt", "S", 1, str(3 * u), None, None, True, False), ("ord", "lim", "S", 1, str(u), "100", None, True, True)]
     return A
 
 
